@@ -1007,6 +1007,18 @@ package kafka
 //@ func makeError
 //@   ensures (code == 0) == (result == nil)
 //@ property C19
+// A request split per partition leader (ListOffsets, ...) is answered by merging the results of ALL its sub-requests: a
+// sub-request that failed is handed to the merger as that sub-request's (error) result, so the failure is reported on its
+// partitions only and what the other leaders answered is kept. await never returns before the merge.
+//@ func (*joined).await
+//@   requires !p.$merged
+//@   option noframe
+//@   modifies heap
+//@   callsite iface Merger.Merge requires same($1, p.requests) && len($2) == len(p.promises)
+//@   callsite iface Merger.Merge modifies p.$merged
+//@   callsite iface Merger.Merge ensures p.$merged
+//@   ensures p.$merged
+//@   loop 0 invariant len(results) == len(p.promises) && !p.$merged
 //@ func (*Client).ListOffsets
 //@   option noframe
 //@   modifies heap
